@@ -49,7 +49,8 @@ def mod():
 @st.composite
 def _ir(draw):
     # wrapped and unwrapped artefacts of the SAME description are compared, so every shape is fair game
-    ir = draw(domain.ir_strategy(allowed=tuple(domain.MUTATORS), min_params=1, max_params=4))
+    ir = draw(domain.ir_strategy(allowed=tuple(domain.MUTATORS), min_params=1, max_params=4,
+                                 forced=draw(st.sampled_from((None, "str_with_space", "str_with_space", "returns_default", "code_default")))))
     for i, p in enumerate(ir["params"]):
         if "doc" in p:
             extra = draw(st.integers(0, 25))
